@@ -49,6 +49,10 @@ pub struct Case {
     pub frame: FrameCase,
     pub program: Program,
     pub garbage: u8,
+    /// the decoder has completely decoded another (checksummed) frame before: what a driver sees
+    /// must not depend on that either
+    #[serde(default)]
+    pub warm: bool,
 }
 
 fn sink_strategy() -> impl Strategy<Value = SinkSpec> {
@@ -98,7 +102,10 @@ fn program_strategy() -> impl Strategy<Value = Program> {
 
 pub fn case_strategy(tier: Tier) -> impl Strategy<Value = Case> {
     let frames = prop_oneof![1 => frame_case_strategy(tier), 2 => frame_case_small_window(tier)];
-    (frames, program_strategy(), prop_oneof![Just(0u8), 1u8..=16]).prop_map(|(frame, program, garbage)| Case { frame, program, garbage })
+    (frames, program_strategy(), prop_oneof![Just(0u8), 1u8..=16]).prop_map(|(frame, program, garbage)| {
+        let warm = garbage % 3 == 1;
+        Case { frame, program, garbage, warm }
+    })
 }
 
 struct ProgSink<'a> {
@@ -157,11 +164,22 @@ fn wrapped(dec: &FrameDecoder) -> bool {
 }
 
 /// Executes the program; returns everything delivered, in order.
-pub fn execute(frame: &[u8], frame_len: usize, window: u64, program: &Program, st: &mut Stats) -> Result<(Vec<u8>, FrameDecoder), Failure> {
+pub fn execute(frame: &[u8], frame_len: usize, window: u64, program: &Program, st: &mut Stats, warm: bool) -> Result<(Vec<u8>, FrameDecoder), Failure> {
     let mut out: Vec<u8> = vec![];
     let mut dec = FrameDecoder::new();
     if window > ruzstd::decoding::DEFAULT_MAX_WINDOW_SIZE {
         dec.set_max_window_size(window);
+    }
+    if warm {
+        ringops::decode_drive::warm_up(&mut dec).map_err(|e| Failure::new("valid_frame_rejected", e))?;
+    }
+    // no frame delivers more than its block headers allow: a drain loop that passes this mark is
+    // being fed by a decoder that hands out bytes it does not have (and would never end)
+    let out_bound = ringops::decode_drive::output_bound(&frame[..frame_len.min(frame.len())]);
+    macro_rules! bounded {
+        ($what:expr) => {
+            ensure!(out.len() <= out_bound, "more_output_than_the_frame_holds", "{} has delivered {} bytes, the frame's block headers allow at most {out_bound}", $what, out.len());
+        };
     }
     match program {
         Program::Frame { ops, src_chunk, rounds } => {
@@ -285,6 +303,7 @@ pub fn execute(frame: &[u8], frame_len: usize, window: u64, program: &Program, s
                 let mut buf = vec![0u8; 70_001];
                 let k = dec.read(&mut buf).map_err(|e| Failure::new("read_error", format!("read (tail): {e}")))?;
                 out.extend_from_slice(&buf[..k]);
+                bounded!("read() (tail)");
                 guard += 1;
                 if k == 0 || guard > 1_000_000 {
                     fail!("drain_stalls", "read() returns 0 while can_collect() = {}", dec.can_collect());
@@ -306,6 +325,7 @@ pub fn execute(frame: &[u8], frame_len: usize, window: u64, program: &Program, s
                     let k = sd.read(&mut buf).map_err(|e| Failure::new("valid_frame_rejected", format!("streaming read: {e}")))?;
                     ensure!(k <= n && buf[k..].iter().all(|&b| b == 0x5A), "read_wrote_past_count", "streaming read({n}) returned {k} / wrote beyond");
                     out.extend_from_slice(&buf[..k]);
+                    bounded!("StreamingDecoder::read");
                     if n == 0 {
                         zero_reads += 1;
                         if zero_reads > reads.len() * 4 {
@@ -363,6 +383,15 @@ pub fn execute(frame: &[u8], frame_len: usize, window: u64, program: &Program, s
             let mut ti = 0usize;
             let mut idle_at_end = 0;
             let mut total_read = 0usize;
+            if warm {
+                // decode_from_to starts a frame by itself only on a decoder without state: a used
+                // one is pointed at the new frame with reset(), which reads the header
+                let mut hsrc = &frame[..cuts[0].max(18).min(frame_len)];
+                let before = hsrc.len();
+                dec.reset(&mut hsrc).map_err(|e| Failure::new("valid_frame_rejected", format!("reset on a used decoder: {e}")))?;
+                pos = before - hsrc.len();
+                total_read = pos;
+            }
             let mut pool: Vec<u8> = vec![];
             loop {
                 let avail = cuts[ci.min(cuts.len() - 1)];
@@ -395,6 +424,7 @@ pub fn execute(frame: &[u8], frame_len: usize, window: u64, program: &Program, s
                 total_read += r;
                 out.extend_from_slice(&buf[..w]);
                 buf[..w].fill(0x5A);
+                bounded!("decode_from_to");
                 let buf_is_empty = buf.is_empty();
                 if dec.is_finished() && dec.can_collect() == 0 {
                     break;
@@ -436,7 +466,7 @@ pub fn check_with(case: &Case, ctx: &mut CaseCtx, c08: bool) -> CaseResult {
     let mut st = Stats::default();
     // decode_from_to programs see the bytes behind the frame only in their last offer (see execute)
     let input: &[u8] = &src;
-    let (out, dec) = execute(input, frame_len, rh.window_size, &case.program, &mut st).map_err(|mut f| {
+    let (out, dec) = execute(input, frame_len, rh.window_size, &case.program, &mut st, case.warm).map_err(|mut f| {
         f.msg = format!("{}; frame {} ({} bytes, {}), program {:?}", f.msg, hexhead(&built.frame), frame_len, built.source, case.program);
         f
     })?;
@@ -457,6 +487,7 @@ pub fn check_with(case: &Case, ctx: &mut CaseCtx, c08: bool) -> CaseResult {
         Program::FromTo { .. } => "prog:decode_from_to",
     });
     ctx.feat_if(st.offered_past_frame_end, "from_to:last_offer_reaches_past_the_frame_end");
+    ctx.feat_if(case.warm, "decoder:warm_(a_checksummed_frame_completed_before)");
     ctx.feat_if(st.partial_sink, "sink:partial");
     ctx.feat_if(st.sink_error, "sink:error_then_retry");
     ctx.feat_if(st.checksum_alone, "from_to:checksum_split");
